@@ -58,8 +58,14 @@ fn judge<T: Tier>(ctx: &mut Ctx, q: Q4<T>, exact_branch: Option<&'static str>) {
     eq_mc::<T, 3>(ctx, &key("Matrix3::from(q)"), m3(m3c), mm, slack);
     eq_mc::<T, 4>(ctx, &key("Matrix4::from(q)"), m4(m4c), model::embed::<_, 3, 4>(mm), slack);
     eq_mc::<T, 3>(ctx, &key("Basis3::from(q)"), basis3_arr(b3), mm, slack);
-    same_slice(ctx, &key("Basis3::from_quaternion"), &flat_m(basis3_arr(b3b)), &flat_m(basis3_arr(b3)));
-    same_slice(ctx, &key("Matrix4-embeds-Matrix3"), &flat_m(m4(m4c)), &flat_m(m4(Matrix4::from(m3c))));
+    // two routes to the same value: the same numbers over a field, the same up to rounding in floating point
+    if T::EXACT {
+        same_slice(ctx, &key("Basis3::from_quaternion"), &flat_m(basis3_arr(b3b)), &flat_m(basis3_arr(b3)));
+        same_slice(ctx, &key("Matrix4-embeds-Matrix3"), &flat_m(m4(m4c)), &flat_m(m4(Matrix4::from(m3c))));
+    } else {
+        eq_mc::<T, 3>(ctx, &key("Basis3::from_quaternion"), basis3_arr(b3b), mm, slack);
+        eq_mc::<T, 4>(ctx, &key("Matrix4-embeds-Matrix3"), m4(Matrix4::from(m3c)), model::embed::<_, 3, 4>(mm), slack);
+    }
     // Basis3 -> Matrix3 through the public conversion (the harness otherwise reads a Basis3 through AsRef)
     same_slice(ctx, &key("Matrix3::from(Basis3)"), &flat_m(m3(Matrix3::from(b3))), &flat_m(basis3_arr(b3)));
     // orthonormal, determinant +1
@@ -111,9 +117,13 @@ fn convert<T: Tier>(rep: &mut Report) {
     let mut uq = alphabet::uq(1);
     // unit quaternions with one tiny and one dominant component, (1, 2k, 2k^2, 0)/(2k^2 + 1) in every arrangement: the
     // pivots of the matrix -> quaternion branches differ by orders of magnitude, and a diagonal element is within 1e-4 of +-1
-    for k in [3i64, 10, 50] {
-        let t = [1, 2 * k, 2 * k * k, 0];
-        let d = 2 * k * k + 1;
+    // ... and (4^j - 1, 2^(j+1), 0, 0)/(4^j + 1): within 2^-j of +-1 in one component, 2^(1-j) in another, down to rotations
+    // (or deviations from a half turn) of 1e-9 - the inputs on which "nearly the identity" or "w is nearly 0" short cuts act
+    let mut tuples: Vec<([i64; 4], i64)> = [3i64, 10, 50].iter().map(|&k| ([1, 2 * k, 2 * k * k, 0], 2 * k * k + 1)).collect();
+    for j in if T::EXACT { vec![6u32, 10, 14] } else { vec![6u32, 12, 20, 28] } {
+        tuples.push(([(1i64 << (2 * j)) - 1, 1i64 << (j + 1), 0, 0], (1i64 << (2 * j)) + 1));
+    }
+    for (t, d) in tuples {
         let mut idx = [0usize, 1, 2, 3];
         // all 24 arrangements (Heap's algorithm, iterative)
         let mut c = [0usize; 4];
